@@ -158,6 +158,8 @@ def _gen_op(rng, wv, allow=None, new_x_container=True):
                     k = int(rng.integers(4, min(2 * n + 3, 600)))
                     if rng.integers(0, 4) == 0 and n >= 4:
                         k = n            # resampled onto as many points as there were: same length, another grid
+                    elif rng.integers(0, 150) == 0 and method != "spline":
+                        k = int(rng.integers(66000, 90002))      # hourly averages expanded to one point per second
                     return {"op": op, "args": [], "kw": {"n": k, "method": method}}
                 k = int(rng.integers(4, min(2 * n + 3, 600)))
                 inner = np.sort(rng.uniform(float(x[0]), float(x[-1]), k - 2))
